@@ -2,7 +2,7 @@
    Only statements, closed by [exact]; proofs live in Proofs/. *)
 From Coq Require Import ZArith List.
 From WS Require Import Base.Res Base.Bytes Spec.Frame Spec.Utf8 Spec.Legal Gen.GenUtils Model.Recv Model.Conn
-  Proofs.Utf8Proof Proofs.RecvSpec Proofs.ConnSpec Proofs.ConnProof.
+  Proofs.Utf8Proof Proofs.RecvSpec Proofs.ConnSpec Proofs.ConnProof Proofs.Utf8Adequacy.
 Import ListNotations.
 Open Scope Z_scope.
 
@@ -39,3 +39,17 @@ Example C06_ex_surrogate : validate_utf8 [237; 160; 128] = false.
 Proof. vm_compute. reflexivity. Qed.
 Example C06_ex_overlong : validate_utf8 [192; 128] = false.
 Proof. vm_compute. reflexivity. Qed.
+
+(* Adequacy of the table-driven specification itself: the byte strings accepted are EXACTLY the
+   UTF-8 encodings of sequences of Unicode scalar values (no surrogates, nothing above U+10FFFF,
+   no overlong forms), and the encoding is injective -- so "valid UTF-8" means what RFC 3629 says. *)
+Theorem C06_accepts_exactly_scalar_encodings : forall l, bytes_ok l ->
+  (validate_utf8 l = true <-> exists cs, forallb scalar cs = true /\ l = utf8_encode cs).
+Proof. exact validator_accepts_exactly_scalar_encodings. Qed.
+Print Assumptions C06_accepts_exactly_scalar_encodings.
+
+Theorem C06_encoding_injective : forall cs1 cs2,
+  forallb scalar cs1 = true -> forallb scalar cs2 = true ->
+  utf8_encode cs1 = utf8_encode cs2 -> cs1 = cs2.
+Proof. exact utf8_encode_injective. Qed.
+Print Assumptions C06_encoding_injective.
